@@ -1180,7 +1180,7 @@ func checkC13(c *Ctx, r *Report) {
 					if mi, ok := v.(*ssa.MakeInterface); ok {
 						v = mi.X
 					}
-					if call, ok := v.(*ssa.Call); ok && call.Call.StaticCallee() != nil && call.Call.StaticCallee().Name() == "mapFinishReasonToStopReason" {
+					if call, ok := v.(*ssa.Call); ok && call.Call.StaticCallee() != nil && isFinishReasonMapper(call.Call.StaticCallee()) {
 						r.OK("C13-R2", key, in.Pos(), "stop_reason ← mapFinishReasonToStopReason(…)")
 					} else {
 						r.Bad("C13-R2", key, in.Pos(), "a stop_reason is produced without the shared finish-reason mapping: streamed and buffered translations can disagree")
@@ -1318,7 +1318,7 @@ func fromStopMapping(c *Ctx, v ssa.Value, depth int) bool {
 		if sc == nil {
 			return false
 		}
-		if sc.Name() == "mapFinishReasonToStopReason" {
+		if isFinishReasonMapper(sc) {
 			return true
 		}
 	case *ssa.Extract:
